@@ -215,8 +215,10 @@ TeddyRec(i) ==
       H == IF e.big THEN HaysBig ELSE Hays
       cs == TeddyCfgs(L)
       HS == {<<x, s>> \in (1..Len(H)) \X (0..(IF e.big THEN MaxHayBig ELSE MaxHay)) : s <= Len(H[x])}
+      \* the reference, once per (haystack, start), through the one-pass formulation (checked against PMatch in phase gen)
+      ref == TLCEval([x \in 1..Len(H) |-> LET m == TLCEval(LitVec(L, H[x])) IN TLCEval([s \in 0..Len(H[x]) |-> PMatchV(L, H[x], m, s)])])
       mb == UNION {LET c == MkTeddy(L, cf[1], cf[3], cf[4], cf[2])
-                   IN {<<cf, t[1], t[2]>> : t \in {t \in HS : TeddyMatch(c, H[t[1]], t[2]) # PMatch(L, H[t[1]], t[2])}} : cf \in cs}
+                   IN {<<cf, t[1], t[2]>> : t \in {t \in HS : TeddyMatch(c, H[t[1]], t[2]) # ref[t[1]][t[2]]}} : cf \in cs}
       fb == {t \in mb : TeddyFind(MkTeddy(L, t[1][1], t[1][3], t[1][4], t[1][2]), H[t[2]], t[3]) # PFind(L, H[t[2]], t[3])}
   IN [k |-> "teddy", i |-> i, fam |-> e.fam, n |-> Len(L), cfgs |-> Cardinality(cs), cases |-> Cardinality(cs) * Cardinality(HS),
       findbad |-> Cardinality(fb), matchbad |-> Cardinality(mb),
